@@ -14,6 +14,19 @@ Record Inv (h : heap) : Prop := {
   inv_nodup : forall p, NoDup (children h p);
   inv_acyclic : forall n, exists l, chain h n l }.
 
+(** a call names existing nodes (or non-nodes) of a universe of [L] nodes *)
+Definition valid_value (L : nat) (v : value) : Prop :=
+  match v with VNode p => p < L | _ => True end.
+Definition valid_values (L : nat) (xs : list value) : Prop := Forall (valid_value L) xs.
+Definition valid_op (L : nat) (o : op) : Prop :=
+  match o with
+  | SetParent n v => n < L /\ valid_value L v
+  | SetChildren n a => n < L /\ match a with CList xs => valid_values L xs | CNotIterable => True end
+  | DelChildren n => n < L
+  | Construct p c => valid_value L p /\
+      match c with Some (CList xs) => valid_values L xs | _ => True end
+  end.
+
 (** the same as a boolean, evaluated on the link maps observed from the
     implementation *)
 Definition count_id (l : list id) (n : id) : nat := length (filter (Nat.eqb n) l).
